@@ -29,7 +29,7 @@ ASSUMPTIONS = [
     "stable markers are the green marker artists, unstable markers the red ones (any other marker artist is reported)",
     "with frequency limits only the markers inside the window are judged and the x-limits of the axes must equal the window; without limits every required marker must lie inside the view limits",
     "model-order coordinate: a marker at (x, y) is at an admissible order iff y is a non-negative integer and SSI_mpe / pLSCF_mpe([x], tables, order=int(y), rtol=1e-9) returns exactly that pole (frequency, damping and tagged shape)",
-    "ordmin = 0 and step = 1 throughout (other values are outside the statement)",
+    "step = 1 throughout; ordmin = 0 except for a sub-lattice with ordmin 1 and 2 (labels of lower orders are 0 there, all retained poles are still drawn; the order axis of the stabilisation diagram starts at ordmin, so markers of lower orders are drawn below the view)",
     "error bars: every bar must be centred (relative 1e-9) on a drawn marker and every drawn marker with a finite covariance must carry exactly one bar; bar lengths are not judged",
 ]
 
@@ -152,26 +152,26 @@ def has_cov(route):
     return route in ("stab", "ssi.stab", "ssidatms.stab")
 
 
-def draw_table(route, Fn, Xi, Phi, Lab, cov, hide, freqlim):
+def draw_table(route, Fn, Xi, Phi, Lab, cov, hide, freqlim, ordmin=0):
     from pyoma2.functions import plot
 
     R, C = Fn.shape
     if route == "stab":
-        return plot.stab_plot(Fn, Lab, 1, C - 1, ordmin=0, freqlim=freqlim, hide_poles=hide, Fn_cov=cov)
+        return plot.stab_plot(Fn, Lab, 1, C - 1, ordmin=ordmin, freqlim=freqlim, hide_poles=hide, Fn_cov=cov)
     if route == "cluster":
-        return plot.cluster_plot(Fn, Xi, Lab, ordmin=0, freqlim=freqlim, hide_poles=hide)
+        return plot.cluster_plot(Fn, Xi, Lab, ordmin=ordmin, freqlim=freqlim, hide_poles=hide)
     import pyoma2.algorithms as algs
     from pyoma2.algorithms.data.result import SSIResult, pLSCFResult
 
     fam, what = route.split(".")
     cls = getattr(algs, _CLS[fam])
     if fam in ("ssi", "ssidatms"):
-        a = cls(name="a", br=3, ordmax=C - 1)
+        a = cls(name="a", br=3, ordmax=C - 1, ordmin=ordmin)
         a._set_data(np.zeros((10, 2)), 20.0)
         a.result = SSIResult(Fn_poles=Fn, Xi_poles=Xi, Phi_poles=Phi, Lab=Lab, Fn_poles_cov=cov,
                              Xi_poles_cov=None if cov is None else cov.copy())
     else:
-        a = cls(name="a", ordmax=C, nxseg=64)
+        a = cls(name="a", ordmax=C, nxseg=64, ordmin=ordmin)
         a._set_data(np.zeros((10, 2)), 20.0)
         a.result = pLSCFResult(Fn_poles=Fn, Xi_poles=Xi, Phi_poles=Phi, Lab=Lab)
     if what == "stab":
@@ -262,7 +262,9 @@ def judge_table(t, case, route, Fn, Xi, Phi, Lab, cov, hide, freqlim, fig, ax):
             ok = False
             t.violation(f"{key}:xlim", f"{rname}: x-limits {xlim} differ from the requested frequency limits {freqlim}", case)
     elif ok:
-        out = [(x, y) for x, y in drawn if not (inside(x, xlim) and inside(y, ylim))]
+        om = case.get("ordmin", 0)
+        # the order axis of the stabilisation diagram starts at ordmin by design; markers of lower orders are drawn, below the view
+        out = [(x, y) for x, y in drawn if not (inside(x, xlim) and (inside(y, ylim) or (what == "stab" and y < om)))]
         if out:
             ok = False
             t.violation(f"{key}:marker-outside-view", f"{rname} hide_poles={hide}: required markers {out[:3]} lie outside the view limits x{xlim} y{ylim}", case)
@@ -313,13 +315,18 @@ def run_table_case(t, case):
     route, hide, freqlim, with_cov = case["route"], case["hide"], case["freqlim"], case["cov"]
     freqlim = None if freqlim is None else tuple(freqlim)
     Fn, Xi, Phi, Lab, cov = build(R, C, cellstr, df=case.get("df", 0.1))
+    om = case.get("ordmin", 0)
+    if om:
+        Lab = Lab.copy()
+        Lab[:, :om] = 0            # labels obey ordmin: poles of lower orders are retained but never labelled stable
+        t.outcomes["ordmin>0"] += 1
     if not with_cov:
         cov = None
     t.states += 1
     t.evaluations += 1
     fig = None
     try:
-        fig, ax = draw_table(route, Fn.copy(), Xi.copy(), Phi.copy(), Lab.copy(), None if cov is None else cov.copy(), hide, freqlim)
+        fig, ax = draw_table(route, Fn.copy(), Xi.copy(), Phi.copy(), Lab.copy(), None if cov is None else cov.copy(), hide, freqlim, om)
     except Exception as e:
         plt.close("all")
         t.violation(f"raises:{type(e).__name__}:{NAME[route]}", f"{NAME[route]}(hide_poles={hide}, freqlim={freqlim}) raised {type(e).__name__}: {e}; table {R}x{C} cells={cellstr}", case)
@@ -429,14 +436,18 @@ def all_cells(R, C):
 def table_cases(thorough):
     cases = []
 
-    def add(R, C, cellsets, routes, hides=(True, False), freqlims=(None,), covs=(False,), df=0.1):
+    def add(R, C, cellsets, routes, hides=(True, False), freqlims=(None,), covs=(False,), df=0.1, ordmins=(0,)):
         for cells in cellsets:
             for route in routes:
                 for hide in hides:
                     for fl in freqlims:
                         for cv in (covs if has_cov(route) else (False,)):
-                            cases.append({"kind": "table", "route": route, "R": R, "C": C, "cells": cells, "hide": hide,
-                                          "freqlim": fl, "cov": cv, "df": df})
+                            for om in ordmins:
+                                c = {"kind": "table", "route": route, "R": R, "C": C, "cells": cells, "hide": hide,
+                                     "freqlim": fl, "cov": cv, "df": df}
+                                if om:
+                                    c["ordmin"] = om
+                                cases.append(c)
 
     both = (None, LO_HI)
     cls_routes = ("ssi.stab", "ssi.cluster", "pl.stab", "pl.cluster")
@@ -445,6 +456,7 @@ def table_cases(thorough):
     if not thorough:
         add(2, 3, all_cells(2, 3), ("stab", "cluster"))
         add(2, 2, all_cells(2, 2), ("stab", "cluster") + cls_routes, freqlims=both, covs=(False, True))
+        add(2, 3, all_cells(2, 3)[::23], ("stab", "cluster", "ssi.stab", "ssi.cluster", "pl.cluster"), ordmins=(1, 2))   # non-default ordmin
         cover34 = [banded_cells(3, 4, p) for p in pats] + single_cells(3, 4)
         add(3, 4, cover34, ("stab", "cluster"))
         add(3, 60, [banded_cells(3, 60, p) for p in pats], ("stab", "cluster", "ssi.stab"), covs=(True,), df=0.01)
@@ -452,6 +464,7 @@ def table_cases(thorough):
         add(3, 3, all_cells(3, 3), ("stab", "cluster"))
         add(2, 4, all_cells(2, 4), ("stab",))
         add(2, 3, all_cells(2, 3), ("stab", "cluster") + cls_routes, freqlims=both, covs=(False, True))
+        add(2, 3, all_cells(2, 3), ("stab", "cluster") + cls_routes, ordmins=(1, 2))
         add(2, 2, all_cells(2, 2), ms_routes, freqlims=both, covs=(False, True))
         cover34 = [banded_cells(3, 4, p) for p in pats] + single_cells(3, 4)
         add(3, 4, cover34, ("stab", "cluster") + cls_routes, freqlims=both, covs=(False, True))
@@ -513,7 +526,7 @@ def explore(ctx):
                            "; 3x4: covering subset = 27 banded tables (column c = 3-symbol pattern rotated by c) + 24 single-pole tables; "
                            "banded family with " + ("20, 40, 60" if ctx.thorough else "60") + " orders"),
         "hide_poles": [True, False], "freqlim": [None, list(LO_HI)], "covariance_table": [None, "mixed small/large (|cov*Fn| below and above 0.5)"],
-        "step": 1, "ordmin": 0,
+        "step": 1, "ordmin": [0, 1, 2],
         "cmif": {"channels": [2, 3, 4], "lines": 6 if ctx.thorough else 4, "symbols_per_line": LEVELS, "nSv": "all, 1..n-1",
                  "routes": ["plot.CMIF_plot", "FDD.plot_CMIF"], "freqlim": [None, [0.4, 1.2]]},
         "figures": len(tc) + len(cc),
